@@ -1,4 +1,4 @@
-import Xp.Proofs.C06Run
+import Xp.Proofs.C06World
 import Xp.Gen.C06
 /-
 C06 — a claim binds exactly one XR and never hijacks another claim's XR.
@@ -40,10 +40,29 @@ same name in another namespace. A `uid` key in a claimRef is not a component the
 (`unbound_ignores_uid`). Not varied: the claim's own apiVersion (`St.me` is fixed; if the claim
 version is switched the pinned code refuses its own XR — no second XR, nothing written).
 
+Hardening round (what the quantifiers below now also range over).
+* ERROR CLASSES / LOST REPLIES: `Step.callErr` lets ANY call of the reconcile return an error of ANY class
+  (`Err`: NotFound, Conflict, Invalid, AlreadyExists, other — Forbidden, transport timeouts and context
+  deadlines are `other`: the code has no branch for them) without being applied, and `Step.callLost` lets it
+  take effect and still return any error; the one exclusion is `admissible`: an XR read answers NotFound
+  only where the name really was absent (stored state, or an older one served by the cache).
+* OTHER CLAIMS: `St.others` holds the other claims of the kind; the same long-lived controller reconciles
+  them (`swap`), and `other_claims_reconcile_is_environment` shows that, seen from any one claim, a
+  reconcile of another claim is a sequence of environment steps of a world with peers (`St.peers = true`,
+  `Env.peerWrite`: XRs created, rebound, unbound by another claim's controller at any moment; never bound to
+  the viewing claim). Every theorem that does not assume `peers = false` therefore holds for each claim
+  of such a world: `ref_set_once`, `one_xr`, `one_xr_count`, `created_names_unique`,
+  `created_name_any_ref_type`, `ref_before_create`, `next_call_safe`, and `no_hijack_guarded` (the writes
+  that carry the XR's resourceVersion never hit a foreign-bound XR). `no_hijack` for ALL writes needs
+  `peers = false` (the environment the property fixes); `raced_*_hijacks_with_peers` show that with peers
+  each of the three unconditional requests does rebind / delete another claim's XR (finding).
+* The environment may also create unbound XRs (`Env.xrCreate`: AlreadyExists on the client-side Create).
+
 `Init s0` (Xp/Proofs/C06Run.lean) = admissible initial store: empty ghost trace; the
 claim's version history is well formed (strictly increasing rv, set-once reference name, every
 version is the object `St.me`, the stored version is the newest); an XR already bound to this claim is one the claim
-references or referenced; XR state histories are consistent (`xcur`, `xfor`).
+references or referenced; XR state histories are consistent (`xcur`, `xfor`, resourceVersions below the
+counter and identifying the claimRef: `xrvLt`, `rvU`).
 `Init.single` builds it from a claim with a single version and XRs without history.
 -/
 namespace Xp.C06
@@ -141,7 +160,7 @@ theorem created_names_unique {s0 : St} (h0 : Init s0) {sys : Sys} (hr : Reach s0
   have hi := (reach_inv h0.inv hr).1
   have key : ∀ n, Ev.create n ∈ sys.st.trace → acked sys.st n := by
     intro n hn
-    have : ∀ tr, TraceOk (acked s0) sys.st.me tr → (∀ m, Ev.ack m ∈ tr → acked sys.st m) → Ev.create n ∈ tr → acked sys.st n := by
+    have : ∀ tr, TraceOk (acked s0) (sys.st.peers = false) sys.st.me tr → (∀ m, Ev.ack m ∈ tr → acked sys.st m) → Ev.create n ∈ tr → acked sys.st n := by
       intro tr
       induction tr with
       | nil => intro _ _ h; cases h
@@ -174,7 +193,7 @@ theorem ref_before_create {s0 : St} (h0 : Init s0) {sys : Sys} (hr : Reach s0 sy
     (post pre : List Ev) (n : Name) (hsplit : sys.st.trace = post ++ Ev.create n :: pre) :
     Ev.ack n ∈ pre ∨ acked s0 n := by
   have hi := (reach_inv h0.inv hr).1
-  have : ∀ tr post, TraceOk (acked s0) sys.st.me tr → tr = post ++ Ev.create n :: pre → Ev.ack n ∈ pre ∨ acked s0 n := by
+  have : ∀ tr post, TraceOk (acked s0) (sys.st.peers = false) sys.st.me tr → tr = post ++ Ev.create n :: pre → Ev.ack n ∈ pre ∨ acked s0 n := by
     intro tr
     induction tr with
     | nil => intro post _ h; cases post <;> cases h
@@ -192,35 +211,67 @@ theorem ref_before_create {s0 : St} (h0 : Init s0) {sys : Sys} (hr : Reach s0 sy
 
 /-! ### no_hijack -/
 
-/-- No write and no delete of the claim controller ever takes effect on an XR whose stored
-`spec.claimRef` is not exactly this claim's reference (in the environment the property fixes; XR
-reads may be stale): whenever such a call was applied to an XR carrying a claimRef `r`, then `r` is
-the claim's own reference. -/
-theorem no_hijack {s0 : St} (h0 : Init s0) {sys : Sys} (hr : Reach s0 sys) (n : Name) (r : CRef) :
-    Ev.xrWrite n (some r) ∈ sys.st.trace → r = s0.me := by
+/-- In a world without other claims' controllers (`s0.peers = false`: the environment the property
+fixes; XR reads may be stale): no write and no delete of the claim controller ever takes effect on an
+XR whose stored `spec.claimRef` is not exactly this claim's reference: whenever such a call — conditional
+on the resourceVersion (`xrWriteG`) or not (`xrWrite`) — was applied to an XR carrying a claimRef `r`,
+then `r` is the claim's own reference. -/
+theorem no_hijack {s0 : St} (h0 : Init s0) (hp : s0.peers = false) {sys : Sys} (hr : Reach s0 sys) (n : Name) (r : CRef) :
+    Ev.xrWrite n (some r) ∈ sys.st.trace ∨ Ev.xrWriteG n (some r) ∈ sys.st.trace → r = s0.me := by
+  have hi := (reach_inv h0.inv hr).1
+  have hp' : sys.st.peers = false := (reach_me_peers hr).2.trans hp
+  rw [← reach_me hr]
+  have : ∀ tr, TraceOk (acked s0) (sys.st.peers = false) sys.st.me tr →
+      Ev.xrWrite n (some r) ∈ tr ∨ Ev.xrWriteG n (some r) ∈ tr → r = sys.st.me := by
+    intro tr
+    induction tr with
+    | nil => intro _ h; rcases h with h | h <;> cases h
+    | cons e t ih =>
+      intro htr h
+      rcases h with h | h
+      · rcases List.mem_cons.mp h with rfl | h
+        · exact htr.2.2.1 n r rfl hp'
+        · exact ih htr.1 (Or.inl h)
+      · rcases List.mem_cons.mp h with rfl | h
+        · exact htr.2.2.2 n r rfl
+        · exact ih htr.1 (Or.inr h)
+  exact this _ hi.trace
+
+/-- In EVERY world — also one in which other claims' controllers create XRs and bind XRs to their
+claims at any moment (`s0.peers = true`, `Env.peerWrite`) — the writes that carry the resourceVersion of
+the XR as read (the managed-fields JSON patch; the client-side syncer's merge patch of an XR that
+Reconcile's Get found) never take effect on an XR whose stored claimRef names another claim: the bound
+check passed on the state with that resourceVersion, and the server accepts the write only on a state
+with the same claimRef. What is NOT protected there is exactly the unconditional requests (`xrWrite`:
+Delete, the server-side syncer's forced apply, the client-side merge patch of an XR that Reconcile's Get
+did not find): see `raced_*` below. -/
+theorem no_hijack_guarded {s0 : St} (h0 : Init s0) {sys : Sys} (hr : Reach s0 sys) (n : Name) (r : CRef) :
+    Ev.xrWriteG n (some r) ∈ sys.st.trace → r = s0.me := by
   have hi := (reach_inv h0.inv hr).1
   rw [← reach_me hr]
-  have : ∀ tr, TraceOk (acked s0) sys.st.me tr → Ev.xrWrite n (some r) ∈ tr → r = sys.st.me := by
+  have : ∀ tr, TraceOk (acked s0) (sys.st.peers = false) sys.st.me tr → Ev.xrWriteG n (some r) ∈ tr → r = sys.st.me := by
     intro tr
     induction tr with
     | nil => intro _ h; cases h
     | cons e t ih =>
       intro htr h
       rcases List.mem_cons.mp h with rfl | h
-      · exact htr.2.2 n r rfl
+      · exact htr.2.2.2 n r rfl
       · exact ih htr.1 h
   exact this _ hi.trace
 
 /-- component-wise: an XR whose claimRef differs from this claim's reference in ANY component
 `cmp.Equal` looks at — the name, the namespace (the same-named claim of another namespace), the
 group, the version or the kind — is never written or deleted by this claim's controller. -/
-theorem no_hijack_components {s0 : St} (h0 : Init s0) {sys : Sys} (hr : Reach s0 sys) (n : Name) (r : CRef)
+theorem no_hijack_components {s0 : St} (h0 : Init s0) (hp : s0.peers = false) {sys : Sys} (hr : Reach s0 sys) (n : Name) (r : CRef)
     (hdiff : r.name ≠ s0.me.name ∨ r.ns ≠ s0.me.ns ∨ r.group ≠ s0.me.group ∨ r.version ≠ s0.me.version ∨
-      r.kind ≠ s0.me.kind) : Ev.xrWrite n (some r) ∉ sys.st.trace := by
-  intro h
-  have := no_hijack h0 hr n r h
-  subst this
-  rcases hdiff with h | h | h | h | h <;> exact h rfl
+      r.kind ≠ s0.me.kind) : Ev.xrWrite n (some r) ∉ sys.st.trace ∧ Ev.xrWriteG n (some r) ∉ sys.st.trace := by
+  have key : ¬ (Ev.xrWrite n (some r) ∈ sys.st.trace ∨ Ev.xrWriteG n (some r) ∈ sys.st.trace) := by
+    intro h
+    have := no_hijack h0 hp hr n r h
+    subst this
+    rcases hdiff with h | h | h | h | h <;> exact h rfl
+  exact ⟨fun h => key (Or.inl h), fun h => key (Or.inr h)⟩
 
 /-- the bound check of Reconcile as a function of the five components -/
 theorem unbound_iff_components (cm : Claim) (x : XR) :
@@ -279,9 +330,10 @@ theorem skeleton_generate_name : Xp.Gen.c06SkelGenerateName = skelGenerateName :
 
 /-- Running a reconcile under any fault plan with scripted environment actions after each
 call (what `Xp.Drv.C06` does to replay a run of the real code) yields a reachable state. -/
-theorem driver_runs_are_executions {s0 : St} (cfg : Cfg) (plan : Plan) (env : Nat → List EnvAct) (s : St)
+theorem driver_runs_are_executions {s0 : St} (cfg : Cfg) (plan : Nat → Flt) (env : Nat → List EnvAct)
+    (henv : ∀ k, ∀ a ∈ env k, a.adm s0.peers s0.me) (s : St)
     (t : Option P) (h : Reach s0 ⟨s, t⟩) : ∃ t', Reach s0 ⟨(runRec plan env 0 (reconcile cfg) s).1, t'⟩ :=
-  runRec_reach plan env 0 _ s (Reach.step _ _ h (Step.start s t cfg))
+  runRec_reach plan env henv 0 _ s (Reach.step _ _ h (Step.start s t cfg))
 
 /-! ### non-vacuity -/
 
@@ -296,21 +348,28 @@ namespace, an unbound XR `x-b` -/
 def exClaim : Claim := ⟨1, exMe, none, false, false, false⟩
 def exStore : St :=
   { me := exMe, claim := some exClaim, hist := [exClaim],
-    xrs := fun n => if n = "x-a" then some ⟨2, some exTwin, false, false, true, false, true, 0⟩
-                    else if n = "x-b" then some ⟨3, none, false, false, false, false, false, 0⟩ else none,
-    xhist := fun n => [if n = "x-a" then some ⟨2, some exTwin, false, false, true, false, true, 0⟩
-                       else if n = "x-b" then some ⟨3, none, false, false, false, false, false, 0⟩ else none],
+    xrs := fun n => if n = "x-a" then some ⟨2, some exTwin, false, some ("c", "other-ns"), true, false, true, 0⟩
+                    else if n = "x-b" then some ⟨3, none, false, none, false, false, false, 0⟩ else none,
+    xhist := fun n => [if n = "x-a" then some ⟨2, some exTwin, false, some ("c", "other-ns"), true, false, true, 0⟩
+                       else if n = "x-b" then some ⟨3, none, false, none, false, false, false, 0⟩ else none],
     nextRv := 10, trace := [] }
 
 example : Init exStore := by
-  refine Init.single (c := exClaim) rfl rfl (by decide) rfl rfl ?_ (fun n => rfl)
-  intro n ⟨x, hx, hc⟩
-  simp only [exStore] at hx
-  split at hx
-  · cases hx; exact absurd hc (by decide)
-  · split at hx
-    · cases hx; cases hc
-    · cases hx
+  refine Init.single (c := exClaim) rfl rfl (by decide) rfl rfl ?_ (fun n => rfl) ?_
+  · intro n ⟨x, hx, hc⟩
+    simp only [exStore] at hx
+    split at hx
+    · cases hx; exact absurd hc (by decide)
+    · split at hx
+      · cases hx; cases hc
+      · cases hx
+  · intro n x hx
+    simp only [exStore] at hx ⊢
+    split at hx
+    · cases hx; decide
+    · split at hx
+      · cases hx; decide
+      · cases hx
 
 /-- a complete server-side reconcile of `exStore` whose first candidate name collides with the
 foreign XR: get claim, add finalizer, Get x-a (taken), Get c-1 (free), update claim, apply -/
@@ -335,17 +394,22 @@ the reference's apiVersion. -/
 def exClaim3 : Claim := ⟨1, exMe, some ⟨"x-b", "example.org", "v1alpha1", "XThing"⟩, true, false, false⟩
 def exStore3 : St :=
   { me := exMe, claim := some exClaim3, hist := [exClaim3],
-    xrs := fun n => if n = "x-b" then some ⟨3, some exMe, false, true, false, false, false, 0⟩ else none,
-    xhist := fun n => [if n = "x-b" then some ⟨3, some exMe, false, true, false, false, false, 0⟩ else none],
+    xrs := fun n => if n = "x-b" then some ⟨3, some exMe, false, some ("c", "ns"), false, false, false, 0⟩ else none,
+    xhist := fun n => [if n = "x-b" then some ⟨3, some exMe, false, some ("c", "ns"), false, false, false, 0⟩ else none],
     nextRv := 10, trace := [] }
 
 example : Init exStore3 := by
-  refine Init.single (c := exClaim3) rfl rfl (by decide) rfl rfl ?_ (fun n => rfl)
-  intro n ⟨x, hx, _⟩
-  simp only [exStore3] at hx
-  split at hx
-  · rename_i h; subst h; rfl
-  · cases hx
+  refine Init.single (c := exClaim3) rfl rfl (by decide) rfl rfl ?_ (fun n => rfl) ?_
+  · intro n ⟨x, hx, _⟩
+    simp only [exStore3] at hx
+    split at hx
+    · rename_i h; subst h; rfl
+    · cases hx
+  · intro n x hx
+    simp only [exStore3] at hx ⊢
+    split at hx
+    · cases hx; decide
+    · cases hx
 
 def exRun3 (ssa : Bool) : Sys :=
   stepOk (stepOk (stepOk (stepOk (stepOk (stepOk (stepOk
@@ -383,35 +447,126 @@ example : (exRun4 false false).st.trace = [] ∧ (exRun4 false false).st.xrs "x-
 example : (exRun4 true true).st.trace = [] ∧ (exRun4 true true).st.xrs "x-a" = exStore.xrs "x-a" ∧ isDone (exRun4 true true).thread = true := by decide
 example : (exRun4 false true).st.trace = [] ∧ (exRun4 false true).st.xrs "x-a" = exStore.xrs "x-a" ∧ isDone (exRun4 false true).thread = true := by decide
 
-example : unbound (exClaim4 false) ⟨2, some exTwin, false, false, true, false, true, 0⟩ = true := by decide
-example : unbound (exClaim4 false) ⟨2, some exMe, true, false, true, false, true, 0⟩ = false := by decide
+example : unbound (exClaim4 false) ⟨2, some exTwin, false, none, true, false, true, 0⟩ = true := by decide
+example : unbound (exClaim4 false) ⟨2, some exMe, true, none, true, false, true, 0⟩ = false := by decide
 
-/-! ### recorded limit (outside the property's quantifier)
+/-! ### several claims of the kind: the other claims' reconciles are environment steps -/
 
-If ANOTHER claim's controller may bind XRs (not an `Env` step), the window between the read of
-the XR and the server-side syncer's forced apply is unprotected: the apply carries no
-resourceVersion. Witness: claim statically referencing the unbound XR `x-b`; the reconcile
-reads it (unbound), updates the claim; then `x-b` is bound to another claim; the pending apply
-rebinds it. (The client-side syncer's merge patch carries the rv of the XR read and is rejected.) -/
+/-- ONE applied call of the reconcile of the claim that is current in `s`, in a world with other claims
+(`s.peers`), seen from the claim in slot `j` of `s.others` (`swap s j`; a different claim): a finite
+sequence of environment steps `Env` (`peerWrite`: an XR created / rewritten / bound by ANOTHER claim's
+controller, never bound to the viewing claim; `xrRemove`/`xrSet`/`xrWrite` for its deletes; `tick` for
+its writes to its own claim object), provided a claimRef the call writes is its own (its guarantee). -/
+theorem other_claims_call_is_environment (s : St) (r : Req) (j : Nat) (d : Side) (hd : s.others[j]? = some d)
+    (hp : s.peers = true) (hne : d.me ≠ s.me) (hg : G s r) : Envs (swap s j) (swap (exec s r).1 j) :=
+  peer_call_is_env s r j d hd hp hne (reqCref_of_G hg)
 
-def exClaim2 : Claim := ⟨1, exMe, some ⟨"x-b", "example.org", "v1", "XThing"⟩, true, false, false⟩
-def exStore2 : St := { exStore with claim := some exClaim2, hist := [exClaim2] }
+/-- A whole scheduled reconcile of the CURRENT claim — any fault plan: every error class at every call,
+lost replies, crashes — started in a reachable state of its own system, is for every OTHER claim of the
+world (slot `j`) a finite sequence of environment steps … -/
+theorem other_claims_reconcile_is_environment {s0 : St} (h0 : Init s0) (plan : Nat → Flt) (k : Nat) (p : P) (s : St)
+    (h : Reach s0 ⟨s, some p⟩) (hp : s0.peers = true) (j : Nat) (d : Side) (hd : s.others[j]? = some d) (hne : d.me ≠ s0.me) :
+    Envs (swap s j) (swap (runRec plan (fun _ => []) k p s).1 j) :=
+  peer_reconcile_is_env h0 plan k p s h hp j d hd hne
 
-/-- something that is not an environment step of this model: another claim takes the XR -/
-def bindOther (s : St) (n : Name) : St :=
-  match s.xrs n with
-  | some x => (putXR s n { x with cref := some exTwin }).1
-  | none => s
+/-- … and therefore keeps every reachable state of THAT claim's own system reachable: `ref_set_once`,
+`one_xr`, `one_xr_count`, `created_names_unique`, `ref_before_create` and `no_hijack_guarded` (all stated
+for every `Init` store and every `Reach`able state, in particular with `peers = true`) hold for EACH claim
+of a world in which one long-lived controller reconciles several claims one after the other, whatever the
+other claims' reconciles did in between (created XRs under a name this claim is about to use, bound the XR
+this claim references, …). -/
+theorem other_claims_reconcile_keeps_reachable {s0 t0 : St} (h0 : Init s0) (plan : Nat → Flt) (k : Nat) (p : P) (s : St)
+    (h : Reach s0 ⟨s, some p⟩) (hp : s0.peers = true) (j : Nat) (d : Side) (hd : s.others[j]? = some d) (hne : d.me ≠ s0.me)
+    (t : Option P) (hv : Reach t0 ⟨swap s j, t⟩) : Reach t0 ⟨swap (runRec plan (fun _ => []) k p s).1 j, t⟩ :=
+  reach_envs hv (peer_reconcile_is_env h0 plan k p s h hp j d hd hne)
 
-def exRun2 (ssa : Bool) : Sys :=
-  let cfg : Cfg := { ssa := ssa, xrt := exXRT, pick := none, xpick := fun _ => none, cands := [], up := none }
-  -- get claim, get XR x-b, (csa: get XR again) then the foreign bind, then the pending write
-  let a := stepOk (stepOk ⟨exStore2, some (reconcile cfg)⟩)
-  let b := if ssa then stepOk a else a      -- ssa: Update(claim) comes first
-  let c := if ssa then b else stepOk b      -- csa: the Get of Apply
-  stepOk ⟨bindOther c.st "x-b", c.thread⟩
+/-! ### with other claims' controllers around, exactly the unconditional requests are unprotected
 
-example : Ev.xrWrite "x-b" (some exTwin) ∈ (exRun2 true).st.trace := by decide
-example : Ev.xrWrite "x-b" (some exTwin) ∉ (exRun2 false).st.trace := by decide
+`no_hijack` needs `peers = false`; `no_hijack_guarded` does not. The three theorems below show that the gap
+is real for each of the three requests that carry no resourceVersion: in a world with peers
+(`Env.peerWrite` between the read the bound check decides on and the request) the pinned code rebinds or
+deletes the XR of another claim. These are findings about the unchanged code in a dimension the property's
+quantifier does not name (monitor `C06:foreign-xr-written-after-raced-read`, corpus/C06/raced.jsonl). -/
+
+/-- `exStore` (XR `x-a` bound to the twin claim, `x-b` unbound) with the claim `c`, in a world with peers -/
+def exStoreP (c : Claim) : St := { exStore with claim := some c, hist := [c], peers := true }
+
+/-- the claim statically references the unbound XR `x-b` -/
+def exClaim2 (deleting : Bool) : Claim := ⟨1, exMe, some ⟨"x-b", "example.org", "v1", "XThing"⟩, true, deleting, false⟩
+/-- the claim references the XR `x-n`, which does not exist (yet) -/
+def exClaim5 : Claim := ⟨1, exMe, some ⟨"x-n", "example.org", "v1", "XThing"⟩, true, false, false⟩
+
+theorem exStoreP_init (c : Claim) (hrv : c.rv = 1) (hid : c.id = exMe) : Init (exStoreP c) := by
+  refine Init.single (c := c) rfl rfl (by simp [exStoreP, exStore, hrv]) rfl hid ?_ (fun n => rfl) ?_
+  · intro n ⟨x, hx, hc⟩
+    simp only [exStoreP, exStore] at hx
+    split at hx
+    · cases hx
+      have hc' : some exTwin = some exMe := hc
+      exact absurd hc' (by decide)
+    · split at hx
+      · cases hx; cases hc
+      · cases hx
+  · intro n x hx
+    simp only [exStoreP, exStore] at hx ⊢
+    split at hx
+    · cases hx; decide
+    · split at hx
+      · cases hx; decide
+      · cases hx
+
+example : Init (exStoreP (exClaim2 false)) ∧ (exStoreP (exClaim2 false)).peers = true := ⟨exStoreP_init _ rfl rfl, rfl⟩
+
+/-- the twin claim's controller binds (or creates, bound) XR `n` -/
+def peerBind (s : St) (n : Name) : St := (putXR s n ⟨0, some exTwin, false, some ("c", "other-ns"), false, false, false, 0⟩).1
+
+def peerStep (sys : Sys) (n : Name) : Sys := ⟨peerBind sys.st n, sys.thread⟩
+
+theorem peerStep_reach {s0 : St} {sys : Sys} (h : Reach s0 sys) (n : Name) (hp : sys.st.peers = true) (hme : sys.st.me = exMe) :
+    Reach s0 (peerStep sys n) :=
+  Reach.step _ _ h (Step.env sys.st _ sys.thread (Env.peerWrite sys.st n _ hp (fun hc => by
+    rw [hme] at hc; exact absurd (Option.some.inj hc) (by decide))))
+
+def exCfg (ssa : Bool) : Cfg := { ssa := ssa, xrt := exXRT, pick := none, xpick := fun _ => none, cands := [], up := none }
+
+/-- server-side syncer: get claim, get `x-b` (unbound: the bound check passes), Update(claim); the twin
+claim's controller binds `x-b`; the pending forced apply rebinds it -/
+def exRacedApply : Sys := stepOk (peerStep (stepOk (stepOk (stepOk ⟨exStoreP (exClaim2 false), some (reconcile (exCfg true))⟩))) "x-b")
+
+theorem raced_apply_hijacks_with_peers :
+    Reach (exStoreP (exClaim2 false)) exRacedApply ∧ Ev.xrWrite "x-b" (some exTwin) ∈ exRacedApply.st.trace ∧
+      (exRacedApply.st.xrs "x-b").bind (·.cref) = some exMe := by
+  refine ⟨?_, by decide, by decide⟩
+  exact stepOk_reach (peerStep_reach (stepOk_reach (stepOk_reach (stepOk_reach
+    (Reach.step _ _ Reach.init (Step.start _ _ _))))) "x-b" (by decide) (by decide))
+
+/-- either syncer, the claim is being deleted: get claim, get `x-b` (unbound); the twin claim's controller
+binds `x-b`; the pending Delete removes the twin claim's XR -/
+def exRacedDelete (ssa : Bool) : Sys := stepOk (peerStep (stepOk (stepOk ⟨exStoreP (exClaim2 true), some (reconcile (exCfg ssa))⟩)) "x-b")
+
+theorem raced_delete_hijacks_with_peers (ssa : Bool) :
+    Reach (exStoreP (exClaim2 true)) (exRacedDelete ssa) ∧ Ev.xrWrite "x-b" (some exTwin) ∈ (exRacedDelete ssa).st.trace ∧
+      (exRacedDelete ssa).st.xrs "x-b" = none := by
+  refine ⟨?_, by cases ssa <;> decide, by cases ssa <;> decide⟩
+  exact stepOk_reach (peerStep_reach (stepOk_reach (stepOk_reach
+    (Reach.step _ _ Reach.init (Step.start _ _ _)))) "x-b" (by cases ssa <;> decide) (by cases ssa <;> decide))
+
+/-- client-side syncer: get claim, get `x-n` (NotFound: nothing to check); the twin claim's controller
+creates `x-n`; Apply's own Get finds it, and the merge patch — built from an XR that was never read, so
+without a resourceVersion — rebinds it -/
+def exRacedPatch : Sys := stepOk (stepOk (peerStep (stepOk (stepOk ⟨exStoreP exClaim5, some (reconcile (exCfg false))⟩)) "x-n"))
+
+theorem raced_patch_hijacks_with_peers :
+    Reach (exStoreP exClaim5) exRacedPatch ∧ Ev.xrWrite "x-n" (some exTwin) ∈ exRacedPatch.st.trace ∧
+      (exRacedPatch.st.xrs "x-n").bind (·.cref) = some exMe := by
+  refine ⟨?_, by decide, by decide⟩
+  exact stepOk_reach (stepOk_reach (peerStep_reach (stepOk_reach (stepOk_reach
+    (Reach.step _ _ Reach.init (Step.start _ _ _)))) "x-n" (by decide) (by decide)))
+
+/-- the client-side merge patch of an XR that WAS read carries its resourceVersion: the same race ends in
+a conflict and the twin claim's XR is untouched (cf. `no_hijack_guarded`) -/
+def exRacedPatchRead : Sys := stepOk (stepOk (peerStep (stepOk (stepOk ⟨exStoreP (exClaim2 false), some (reconcile (exCfg false))⟩)) "x-b"))
+
+example : exRacedPatchRead.st.trace = [] ∧ (exRacedPatchRead.st.xrs "x-b").bind (·.cref) = some exTwin := by decide
 
 end Xp.C06
